@@ -22,8 +22,13 @@ Decided:
              y+x / y-x and negates 2dxy, applied iff b < 0
   decode     point decoding negates x iff parity(x) != sign bit  [KNOWN FINDING: the tree implements
              the ref10 negated convention]
-Not decided: absence of overflow inside the limb arithmetic (the proviso above), Barrett quotient
-estimation, scalarmult_base / double_scalarmult digit arithmetic as numbers."""
+  fe-bounds  the proviso of the limb identities: fe64 closed bound vector, fe32 tight/loose contracts, no overflow assert, no
+             lossy narrowing (interval abstract interpretation, both backends)
+  encode     to_packed / to_bytes: reduction identity, reduced digits, bit packing; decode32: fe32 from_bytes identity
+  sc32       scalar32 reduce / muladd: digit provenance, congruence modulo L, bounds, packing; Scalar::ZERO tables
+  window     double_scalarmult_vartime table / digit-use / scan-start rules, Scalar::bits covers all 256 bits (shared with C14)
+Not decided: Barrett quotient estimation (scalar64), scalarmult_base / double_scalarmult digit arithmetic as numbers, that
+the canonical reduction's quotient is floor(H / p), limb bounds at fe32 call sites in the group code."""
 import re
 
 from .. import mir, pred, rules, ssa, termbits, fexpr, limbpoly
@@ -32,7 +37,7 @@ from ..mir import fmt, walk, const_val
 from ..spec import curve
 
 EXPLANATION = __doc__
-TECHNIQUE = "evaluated tables vs. definition-derived oracle; term-domain dataflow + limb-polynomial normal form modulo 2^255-19 with exact carry splitting; rational-function identity of the group law; exponent evaluation; bit provenance"
+TECHNIQUE = "interval abstract interpretation over ssa terms with exact carry/remainder relations and trace partitioning on carries (inductive limb-bound invariants, overflow-assert discharge); evaluated tables vs. definition-derived oracle; term-domain dataflow + limb-polynomial normal form modulo 2^255-19 with exact carry splitting; rational-function identity of the group law; exponent evaluation; bit provenance"
 
 PM = curve.P
 
